@@ -21,6 +21,8 @@ package vanguard
 // harness can call the real implementation. It adds no behaviour.
 
 import (
+	"bytes"
+	"encoding/json"
 	"errors"
 	"net/http"
 	"time"
@@ -203,4 +205,36 @@ func (r *VerifRouter) Match(uriPath, method string) (found int, vars []string, a
 		vars = append(vars, vm.value)
 	}
 	return r.targets[target], vars, nil
+}
+
+// VerifWireError is the harness-visible form of a decoded Connect error.
+type VerifWireError struct {
+	Code    uint32
+	Message string
+	Details int
+}
+
+// VerifParseConnectUnaryError decodes a Connect unary error body exactly as
+// connectUnaryServerProtocol's response-end unmarshaller does.
+func VerifParseConnectUnaryError(data []byte) (VerifWireError, error) {
+	var wireErr connectWireError
+	if err := json.Unmarshal(data, &wireErr); err != nil {
+		return VerifWireError{}, err
+	}
+	cerr := wireErr.toConnectError()
+	return VerifWireError{Code: uint32(cerr.Code()), Message: cerr.Message(), Details: len(cerr.Details())}, nil
+}
+
+// VerifParseConnectEndStream decodes a Connect end-of-stream payload exactly as
+// connectStreamServerProtocol.decodeEndFromMessage does.
+func VerifParseConnectEndStream(data []byte) (hasErr bool, werr VerifWireError, meta http.Header, err error) {
+	end, err := connectStreamServerProtocol{}.decodeEndFromMessage(nil, bytes.NewBuffer(data))
+	if err != nil {
+		return false, VerifWireError{}, nil, err
+	}
+	if end.err != nil {
+		hasErr = true
+		werr = VerifWireError{Code: uint32(end.err.Code()), Message: end.err.Message(), Details: len(end.err.Details())}
+	}
+	return hasErr, werr, end.trailers, nil
 }
